@@ -390,7 +390,7 @@ pub fn gen_cfg(rng: &mut Rng, p: &GenParams) -> Cfg {
 	Cfg { cols, salt, threshold, sync: true }
 }
 
-fn gen_key(rng: &mut Rng, uniform: bool, id: u64) -> Vec<u8> {
+pub fn gen_key(rng: &mut Rng, uniform: bool, id: u64) -> Vec<u8> {
 	// keys are distinct per id; lengths: empty, short, 32, > 250
 	let mut r = Rng::new(id.wrapping_mul(0x1234_5678_9abc_def1));
 	let len = if uniform {
@@ -418,7 +418,7 @@ fn gen_key(rng: &mut Rng, uniform: bool, id: u64) -> Vec<u8> {
 	k
 }
 
-fn gen_value_token(rng: &mut Rng, big: bool, key_id: u64, fixed_by_key: bool) -> String {
+pub fn gen_value_token(rng: &mut Rng, big: bool, key_id: u64, fixed_by_key: bool) -> String {
 	if fixed_by_key {
 		// value determined by key (preimage contract)
 		let mut r = Rng::new(key_id ^ 0xabcdef);
@@ -615,14 +615,14 @@ pub fn run_case(
 	ok
 }
 
-fn res(r: &Result<(), parity_db::Error>) -> String {
+pub fn res(r: &Result<(), parity_db::Error>) -> String {
 	match r {
 		Ok(()) => "ok".into(),
 		Err(e) => format!("err:{}", err_kind(e)),
 	}
 }
 
-fn check_all(
+pub fn check_all(
 	sut: &Sut,
 	oracle: &Oracle,
 	cfg: &Cfg,
@@ -680,7 +680,7 @@ fn check_all(
 }
 
 /// One observed read: emits the protocol lines (get + size) and checks against the oracle.
-fn check_get(
+pub fn check_get(
 	sut: &Sut,
 	oracle: &Oracle,
 	cfg: &Cfg,
